@@ -163,6 +163,7 @@ func (w *world) abs(m *specqbft.SignedMessage, depth int) string {
 
 // ---- recording network / timer ----------------------------------------------------------------------
 
+// forceNetFail (set by scripted attacks): the next timeout of the node finds the network down.
 type recNet struct {
 	msgs []*specqbft.SignedMessage
 	fail bool // the next publishes fail (network down)
@@ -215,28 +216,29 @@ func (nopStore) CleanAllInstances(*zap.Logger, []byte) error { return nil }
 // ---- one operator ------------------------------------------------------------------------------------
 
 type node struct {
-	w       *world
-	id      spectypes.OperatorID
-	share   *spectypes.Share
-	height  specqbft.Height
-	level   string
-	net     *recNet
-	timer   *recTimer
-	inst    *instance.Instance // level inst
-	ctrl    *controller.Controller
-	ref     *specqbft.Instance // reference, level inst only
-	refNet  *recNet
-	refTmr  *specTimer
-	diverge bool     // node was compacted: state roots are no longer comparable
-	lines   []string // CASE body
-	viol    []string
-	decided *specqbft.SignedMessage // first reported decision (controller level) / agg commit
-	decVal  []byte
-	hasDec  bool
-	started bool
-	armed   uint64 // the round the real timer was last armed for (what a real timeout event would carry)
-	rewound bool   // UponDecided moved the round of this (undecided) instance backwards (signature of F6)
-	nops    int
+	forceNetFail bool // the next timeout finds the network down (scripted attacks)
+	w            *world
+	id           spectypes.OperatorID
+	share        *spectypes.Share
+	height       specqbft.Height
+	level        string
+	net          *recNet
+	timer        *recTimer
+	inst         *instance.Instance // level inst
+	ctrl         *controller.Controller
+	ref          *specqbft.Instance // reference, level inst only
+	refNet       *recNet
+	refTmr       *specTimer
+	diverge      bool     // node was compacted: state roots are no longer comparable
+	lines        []string // CASE body
+	viol         []string
+	decided      *specqbft.SignedMessage // first reported decision (controller level) / agg commit
+	decVal       []byte
+	hasDec       bool
+	started      bool
+	armed        uint64 // the round the real timer was last armed for (what a real timeout event would carry)
+	rewound      bool   // UponDecided moved the round of this (undecided) instance backwards (signature of F6)
+	nops         int
 }
 
 func (w *world) newNode(id spectypes.OperatorID, height specqbft.Height, level string) *node {
@@ -255,6 +257,12 @@ func (w *world) newNode(id spectypes.OperatorID, height specqbft.Height, level s
 	if level == "ctrl" {
 		nd.ctrl = controller.NewController(identifier[:], share, cfg, false)
 		nd.ctrl.Height = height
+		// what the controller hands to the decided stream (exporter, validator) is a reported decision too
+		nd.ctrl.NewDecidedHandler = func(msg *specqbft.SignedMessage) {
+			if msg != nil && msg.Message.Height == height {
+				nd.checkCertificate(msg, false)
+			}
+		}
 	} else {
 		nd.inst = instance.NewInstance(cfg, share, identifier[:], height)
 		nd.refNet = &recNet{}
@@ -590,7 +598,7 @@ func (nd *node) timeout() []*specqbft.SignedMessage {
 		}
 		// -netfail: every third timeout of an operator finds the network down (the publish of the round change
 		// fails); the timeout must move the operator on and re-arm the timer all the same
-		down := netFail && nd.nops%3 == 0
+		down := (netFail && nd.nops%3 == 0) || nd.forceNetFail
 		nd.net.fail = down
 		err := nd.ctrl.OnTimeout(logger, *ev)
 		nd.net.fail = false
